@@ -22,7 +22,7 @@ RULE = ('triple lists from graphs decoded from WF-T trees (null targets removed,
         'Non-trivial: the list has >=2 triples and a quoted-string target.')
 ANCHORS = ['penman._parse:_parse_triples', 'penman._parse:_parse_triple', 'penman._format:format_triples']
 MIN_EVAL = {'quick': 3000, 'thorough': 60000}
-REQUIRED_COUNTERS = ['string_targets', 'variants']
+REQUIRED_COUNTERS = ['string_targets', 'variants', 'long_lists']
 SRCS = ['a', 'b', 'x1', '_', 'n-0', '\u03b5', 'b.c']
 ROLES = [':instance', ':ARG0', ':ARG1-of', ':mod', ':op10', 'polarity', ':x-y', ':\u00e9t\u00e9', ':a.b']
 TGTS = ['b', 'x1', '7', '-1.5', '-', '+', 'foo-01', '"x"', '"a b"', '"(p)"', '"a, b"', '"^"', '"q ^ r"',
@@ -42,6 +42,8 @@ def cases(ctx):
         if not ctx.time_left():
             break
         yield 'rand', {'i': i}
+        if i % 25 == 0:
+            yield 'long', {'i': i}
 
 
 def colon(r):
@@ -82,7 +84,32 @@ def check_variants(ctx, t1, t2, det):
                      detail=dict(det, text=txt, got=back, want=want))
 
 
+def render(L, comma, caret):
+    return caret.join(f'{r.lstrip(":")}({s}{comma}{t})' for s, r, t in L)
+
+
 def oracle(ctx, kind, p):
+    if kind == 'long':
+        # long conjunctions (17-130 triples) in every documented spacing style
+        rng = ctx.rng('long', p['i'])
+        n = rng.choice([17, 23, 33, 40, 56, 64, 65, 70, 100, 129])
+        L = [(rng.choice(SRCS), rng.choice(ROLES), rng.choice(['b', '7', 'x-01', '"s t"', '"a, b"', 'foo']))
+             for _ in range(n)]
+        want = [(s, colon(r), t) for s, r, t in L]
+        ctx.current = ['list', {'L': [list(t) for t in L]}]
+        for comma in (',', ', ', ' ,', ' , '):
+            for caret in ('^', ' ^', ' ^ ', ' ^\n'):
+                txt = render(L, comma, caret)
+                ok, back = ctx.call(penman.parse_triples, txt, clause='parse_triples(long)')
+                ctx.count('variants')
+                if ok and back != want:
+                    ctx.fail('long-conjunction', mech=f'{comma!r}{caret!r}',
+                             detail={'triples': n, 'comma': comma, 'caret': caret, 'parsed': len(back),
+                                     'text': txt[:200]})
+        check_list(ctx, L, {'triples': n})
+        ctx.count('long_lists')
+        ctx.case(L, True)
+        return
     if kind == 'list':
         L = [tuple(t) for t in p['L']]
         check_list(ctx, L, {})
